@@ -22,6 +22,10 @@ NoG == [n |-> 0]
 V(checks) == viol' = viol \cup {[t |-> Rec.t, i |-> Rec.i, inv |-> c[1]] : c \in {c \in checks : ~c[2]}}
 TagPairs(T) == {<<r, T[r]>> : r \in {q \in Refs : T[q] # 0}}
 PairsOf(s) == {<<s[i][1], s[i][2]>> : i \in 1..Len(s)}
+\* the tag mapping with the annotations of the tagged descriptors (without the reference name)
+TagTriples(T, A) == {<<r, T[r], A[r]>> : r \in {q \in Refs : T[q] # 0}}
+TriplesOf(s) == {<<s[i][1], s[i][2], s[i][3]>> : i \in 1..Len(s)}
+AnnAfter(A, r, res) == IF r.op = "tag" /\ res = "ok" THEN [A EXCEPT ![r.ref] = r.ann] ELSE A
 
 Init == /\ l = 1 /\ g = NoG /\ content = {} /\ tags = <<>> /\ indexed = {} /\ stray = {} /\ tagann = <<>>
         /\ pre = [content |-> {}] /\ post = [content |-> {}] /\ viol = {} /\ nonconf = {} /\ done = FALSE
@@ -29,15 +33,17 @@ Init == /\ l = 1 /\ g = NoG /\ content = {} /\ tags = <<>> /\ indexed = {} /\ st
 EvInit ==
   /\ Rec.e = "init"
   /\ g' = Rec /\ content' = {} /\ indexed' = {} /\ stray' = {} /\ tags' = [r \in Rng(Rec.refs) |-> 0]
-  /\ UNCHANGED <<tagann, pre, post, viol, nonconf>>
+  /\ tagann' = [r \in Rng(Rec.refs) |-> ""]
+  /\ UNCHANGED <<pre, post, viol, nonconf>>
 
 \* a setup operation (it returned before the crash): advance the model
 EvSetup ==
   /\ Rec.e = "op"
   /\ LET x == Expect(Rec) IN
      /\ content' = x.content /\ tags' = x.tags /\ indexed' = x.indexed /\ stray' = x.stray
+     /\ tagann' = AnnAfter(tagann, Rec, x.res)
      /\ V({<<"SetupResult", x.res = "ok">>})
-  /\ UNCHANGED <<g, tagann, pre, post, nonconf>>
+  /\ UNCHANGED <<g, pre, post, nonconf>>
 
 \* the victim: L2 comparison of the recorded system calls with the model's steps
 Count(s, x) == Cardinality({i \in 1..Len(s) : s[i] = x})
@@ -48,7 +54,7 @@ EvVictim ==
   /\ LET x == Expect(Rec)
          want == IF x.res = "ok" THEN Kinds(StepsOf(Rec, x)) ELSE <<>>
          got == [i \in 1..Len(Rec.steps) |-> <<Rec.steps[i][1], Rec.steps[i][2]>>]
-     IN /\ pre' = Cur /\ post' = Snap(x.content, x.tags, x.indexed)
+     IN /\ pre' = [ann |-> tagann] @@ Cur /\ post' = [ann |-> AnnAfter(tagann, Rec, x.res)] @@ Snap(x.content, x.tags, x.indexed)
         \* the order in which cascaded nodes are removed is not part of the model: compare as bags, and the first step
         /\ nonconf' = IF SameBag(want, got) /\ (want = <<>> \/ got = <<>> \/ want[1] = got[1]) THEN nonconf ELSE nonconf \cup {[t |-> Rec.t, i |-> Rec.i, inv |-> "StepsDiffer"]}
         /\ V({<<"VictimResult", Rec.res = x.res>>})
@@ -63,10 +69,10 @@ EvCrash ==
      IN V({<<"CanReopen", r.openok /\ r.indexok>>,
            <<"BlobFilesComplete", r.badblobs = 0>>,
            <<"EntriesNameExistingBlobs", r.entriesmissing = 0>>,
-           <<"TagMapBeforeOrAfter", r.openok => PairsOf(r.tags) \in {TagPairs(pre.tags), TagPairs(post.tags)}>>,
+           <<"TagMapBeforeOrAfter", r.openok => TriplesOf(r.tags) \in {TagTriples(pre.tags, pre.ann), TagTriples(post.tags, post.ann)}>>,
            <<"ReturnedEffectsPresent", r.openok => (both \subseteq Rng(r.exists) /\ both \subseteq Rng(r.fetchok))>>,
            <<"NothingInvented", Rng(r.blobs) \subseteq either>>,
-           <<"CompletedRunIsAfter", Rec.k = 0 => (r.openok /\ PairsOf(r.tags) = TagPairs(post.tags)
+           <<"CompletedRunIsAfter", Rec.k = 0 => (r.openok /\ TriplesOf(r.tags) = TagTriples(post.tags, post.ann)
                                                    /\ Rng(r.exists) = post.content)>>})
   /\ UNCHANGED <<g, content, tags, indexed, stray, tagann, pre, post, nonconf>>
 
